@@ -242,6 +242,13 @@ pub fn generate(g: &mut Gen, thorough: bool) {
     for good in ["stack swap", "stack drop"] {
         shapes.push((true, good.to_string()));
     }
+    // a directional modifier is not a sub-command: it neither replaces one nor counts as a second one
+    for bad in ["stack omit_fwd", "stack omit_inv", "stack inv", "stack omit_fwd omit_inv", "omit_inv stack"] {
+        shapes.push((false, bad.to_string()));
+    }
+    for good in ["stack push=1,2 omit_inv", "stack pop=1 omit_fwd", "omit_fwd stack swap", "stack roll=2,1 omit_inv omit_fwd", "stack push=1 inv", "inv stack flip=1 omit_fwd"] {
+        shapes.push((true, good.to_string()));
+    }
     for (ok, def) in &shapes {
         let class = if *ok { "wellformed" } else { "illformed" };
         g.push(op_line("default", &[], &[], def, "apply", "F", &probe_data(1)), &format!("shape-{class}"), true);
